@@ -612,13 +612,25 @@ pub fn menu(ty: &Ty, id: usize, side: Side) -> Vec<V> {
         Ty::Bytes(None) => lens_bytes(&[32, 0, 1, 23, 24, 31, 33, 255, 256, 1024]),
         Ty::Bytes(Some(c)) => {
             let c = *c;
-            lens_bytes(&[c.min(16 + id % 5), 0, c.min(1), c.saturating_sub(1), c])
+            let mut lens = vec![c.min(16 + id % 5), 0, c.min(1), c.saturating_sub(1), c];
+            for t in [23usize, 24, 255, 256] {
+                if t <= c {
+                    lens.push(t);
+                }
+            }
+            lens_bytes(&lens)
         }
         Ty::BytesExact(n) => vec![V::B(fill_bytes(*n, id)), V::B(vec![0; *n]), V::B(vec![0xff; *n])],
         Ty::Text(None) => lens_text(&[11, 0, 1, 23, 24, 255, 256, 300]),
         Ty::Text(Some(c)) => {
             let c = *c;
-            lens_text(&[c.min(10), 0, 1, c - 1, c])
+            let mut lens = vec![c.min(10), 0, 1, c - 1, c];
+            for t in [23usize, 24, 255, 256] {
+                if t <= c {
+                    lens.push(t);
+                }
+            }
+            lens_text(&lens)
         }
         Ty::TextTrunc(n) => {
             let n = *n;
